@@ -15,6 +15,7 @@ read error → `repair_index` drops the intact pack in release builds).
 -/
 import Rustic.Lemmas.Pack
 import Rustic.Lemmas.Index
+import Rustic.Props.C17
 import Rustic.Gen.Constants
 namespace Rustic.Props.C08
 open Rustic.Pack
@@ -41,6 +42,13 @@ included): offsets are the running sum of the lengths from 0, `size` is their to
 per indexed blob of exactly the recorded length, all blobs have the packer's type, no id occurs twice. -/
 theorem packer_offsets_cumulative (t : BlobType) (adds : List (Bytes × Nat × Option Nat)) :
     ((Packer.new t).run adds).Inv := Packer.run_inv _ (Packer.new_inv t) adds
+
+/-- (2') … and the byte range `[offset, offset+length)` the index records for the `i`-th blob holds exactly the `i`-th
+chunk that was written (the data of the `i`-th accepted `add_raw`). -/
+theorem packer_blob_bytes (t : BlobType) (adds : List (Bytes × Nat × Option Nat)) (i : Nat) (b : IndexBlob) (c : Bytes)
+    (hb : ((Packer.new t).run adds).blobs[i]? = some b) (hc : ((Packer.new t).run adds).file[i]? = some c) :
+    ((((Packer.new t).run adds).file.flatten.drop b.loc.offset).take b.loc.length) = c :=
+  (packer_offsets_cumulative t adds).blob_bytes i b c hb hc
 
 /-- (1+2) so the header of any pack the packer writes parses back to exactly the blob list that goes to
 the index. -/
@@ -132,6 +140,87 @@ theorem rebuild_index_lookup_equiv (enc : Bytes → Bytes) (dec : Bytes → Opti
     rfl
   rw [← this] at hlisted
   exact Rustic.Index.answers_of_perm hlisted h h' t id
+
+/-- the packs a repository stores, for the `repair_index` theorem: id, type and the add sequence that built it -/
+abbrev Built := Nat × BlobType × List (Bytes × Nat × Option Nat)
+
+def Built.packer (q : Built) : Packer := (Packer.new q.2.1).run q.2.2
+def Built.file (enc : Bytes → Bytes) (q : Built) : Bytes := (q.packer.finish enc).1
+
+/-- (6) The index is rebuildable — for ALL subsets of index files removed before `repair_index` (incl. all of them):
+let `packs` be the stored packs (any packer output, distinct ids), `files` ANY set of index files that do not mark
+packs for deletion and whose entries agree with the packs they name (e.g. what is left of a consistent index after
+deleting index files), `readHeader` = `PackHeader::from_file` on the stored files.  Then the repaired index lists
+exactly the stored packs with the blobs of their headers, so a lookup `(t, id)` is listed in an unmarked pack iff some
+stored pack contains that blob — the same answers the complete index gave (C17 `has_iff` / `get_succeeds_iff` turn this
+into equal `has` / `get_id` results, hence every snapshot restores identically). -/
+theorem index_rebuildable (enc : Bytes → Bytes) (dec : Bytes → Option Bytes) (ae : AE enc dec)
+    (packs : List Built)
+    (hids : (packs.map (·.1)).Nodup)
+    (hwf : ∀ q ∈ packs, ∀ b ∈ q.packer.blobs, WFBlob b)
+    (hfit : ∀ q ∈ packs, packSize q.packer.blobs < 4294967296)
+    (files : List Rustic.Index.IndexFile)
+    (hnomark : ∀ f ∈ files, f.packsToDelete = [])
+    (hcons : ∀ f ∈ files, ∀ p ∈ f.packs, ∀ q ∈ packs, q.1 = p.id → p.blobs = q.packer.blobs ∧ p.packSize = (q.file enc).length)
+    (readHeader : Nat → Option Nat → Nat → Option (List IndexBlob))
+    (hread : ∀ q ∈ packs, ∀ hint, readHeader q.1 hint (q.file enc).length =
+      (fromFile dec (q.file enc) hint (q.file enc).length).toOption)
+    (t : BlobType) (id : Nat) :
+    Rustic.Props.C17.ListedUnmarked
+        (Rustic.Index.repairIndex readHeader (packs.map fun q => (q.1, (q.file enc).length)) files false) t id ↔
+      ∃ q ∈ packs, ∃ b ∈ q.packer.blobs, b.tpe = t ∧ b.id = id := by
+  -- the header of every stored pack
+  let blobsOf : Nat → List IndexBlob := fun i =>
+    match packs.find? (fun q => q.1 == i) with
+    | some q => q.packer.blobs
+    | none => []
+  have hblobs : ∀ q ∈ packs, blobsOf q.1 = q.packer.blobs := by
+    intro q hq
+    simp only [blobsOf]
+    have : packs.find? (fun x => x.1 == q.1) = some q := find_by_fst packs hids q hq
+    rw [this]
+  have hstoreNd : ((packs.map fun q => (q.1, (q.file enc).length)).map (·.1)).Nodup := by
+    simpa [List.map_map, Function.comp_def] using hids
+  have hspec := Rustic.Index.repairIndex_spec readHeader (packs.map fun q => (q.1, (q.file enc).length)) blobsOf files
+    hstoreNd
+    (by
+      intro e he hint
+      obtain ⟨q, hq, rfl⟩ := List.mem_map.mp he
+      simp only
+      rw [hread q hq hint, hblobs q hq]
+      have := parse_build enc dec ae q.2.1 q.2.2 (hwf q hq) (hfit q hq) hint
+      simp only [Built.file, Built.packer] at this ⊢
+      rw [this]; rfl)
+    (by
+      intro f hf p hp e he hid
+      obtain ⟨q, hq, rfl⟩ := List.mem_map.mp he
+      simp only at hid ⊢
+      have hpk : p ∈ f.packs := by
+        rcases hp with h | h
+        · exact h
+        · rw [hnomark f hf] at h; cases h
+      obtain ⟨h1, h2⟩ := hcons f hf p hpk q hq hid
+      exact ⟨by rw [h1, ← hid, hblobs q hq], h2⟩)
+  have hnm := Rustic.Index.repairIndex_noMarks readHeader (packs.map fun q => (q.1, (q.file enc).length)) files false hnomark
+  generalize Rustic.Index.repairIndex readHeader (packs.map fun q => (q.1, (q.file enc).length)) files false = R at hspec hnm
+  obtain ⟨hsound, hcover⟩ := hspec
+  constructor
+  · rintro ⟨f, hf, p, hp, b, hb, ht, hid⟩
+    obtain ⟨⟨e, he, heid⟩, hpb⟩ := hsound p ⟨f, hf, Or.inl hp⟩
+    obtain ⟨q, hq, rfl⟩ := List.mem_map.mp he
+    simp only at heid
+    refine ⟨q, hq, b, ?_, ht, hid⟩
+    rw [← hblobs q hq, heid, ← hpb]; exact hb
+  · rintro ⟨q, hq, b, hb, ht, hid⟩
+    obtain ⟨p, ⟨f, hf, hp⟩, hpid⟩ := hcover (q.1, (q.file enc).length) (List.mem_map.mpr ⟨q, hq, rfl⟩)
+    simp only at hpid
+    have hpk : p ∈ f.packs := by
+      rcases hp with h | h
+      · exact h
+      · rw [hnm f hf] at h; cases h
+    obtain ⟨_, hpb⟩ := hsound p ⟨f, hf, Or.inl hpk⟩
+    refine ⟨f, hf, p, hpk, b, ?_, ht, hid⟩
+    rw [hpb, hpid, hblobs q hq]; exact hb
 
 /-! ### non-vacuity -/
 
